@@ -6,12 +6,12 @@ checks=${@:-$(/venv/bin/python -c "import json;print(' '.join(c['property_id'] f
 wt=/tmp/wt/all_${label}_$$
 git -C /repo worktree add -q --detach "$wt" HEAD || exit 2
 cp /repo/lib/yaml/_yaml.cpython-312-x86_64-linux-gnu.so "$wt/lib/yaml/"
-git -C "$wt" apply "$patch" || { git -C /repo worktree remove --force "$wt"; echo "$label: patch does not apply"; exit 2; }
-cd /verif
+git -C "$wt" apply "$(realpath $patch)" || { git -C /repo worktree remove --force "$wt"; echo "$label: patch does not apply"; exit 2; }
+cd "$(dirname "$0")/.."
 for id in $checks; do
   log=/tmp/all_${label}_$id.log
   VERIF_REPO="$wt" VERIF_BUILD_TAG="all_${label}_$id" VERIF_EVIDENCE_DIR=/tmp/wt/ev_all_$$ ./check $id --tier quick > $log 2>&1; rc=$?
   echo "$label vs $id: rc=$rc $(grep -c '^VIOLATION' $log) VIOLATION, $(grep -c '^NOTE' $log) notes $(grep -E 'violating case|machinery' $log | head -2 | cut -c1-200 | tr '\n' ' ')"
-  rm -rf /verif/build/all_${label}_$id
+  rm -rf build/all_${label}_$id
 done
 git -C /repo worktree remove --force "$wt"; rm -rf /tmp/wt/ev_all_$$
